@@ -37,6 +37,12 @@ CHECKS = {
  "C08": dict(cat="fault_enumeration", tech="trace monitor: event log per step() replayed by an offline protocol checker; engineered wall models; solver fault injected at every solve index",
    text="Per step() call the spies produce (SOLVE UPDATE LOSS STRATEGY [RESTORE])* traces; the checker enforces <= reject+1 trials, returned == optimizer.loss == recomputed robust loss at the final parameters, no worse loss unless rejections exhausted, restore to pre-trial parameters, clean end on solver failure, documented Constant/Adaptive/TrustRegion transitions within bounds, GN loss/last bookkeeping. Histories up to 30 calls; models engineered so that the first k trials increase the loss (k=0..reject+1 observed); the solver raises at every j of a measured dry run.",
    note="Trusted: loss recomputed through the model forward and kernel objects; strategy ratios within 1e-9 of a threshold are not judged.", ref="DESIGN.md 3 C08"),
+ "C17": dict(cat="exploration", tech="optimality monitor vs own Kabsch/Umeyama reference and random perturbations; brute-force closest-point metric for ICP; pose recovery from exact projections for EPnP",
+   text="svdtf / svdstf results must be proper rigid / similarity transforms whose sum of squared residuals is not larger than the numpy reference optimum nor than 24-50 perturbed transforms, exact correspondences reproduced (generic, planar, collinear, duplicated, 3-point, reflection-prone noisy sets, a float32 reflection stress of ~1e5 items, batch rank up to 3); ICP never increases the mean squared closest-point distance and recovers small exact perturbations inside the reference convergence basin (reused object, init variants); EPnP recovers the pose from exact projections (N=6..100, with/without refinement).",
+   note="Trusted: geom_ref numpy oracles; EPnP judged only for well-conditioned 2Nx12 systems ((s1/s11)^2 <= 1e10, exclusions counted); transform equality only for non-degenerate sets.", ref="DESIGN.md 3 C17"),
+ "C18": dict(cat="exploration", tech="brute-force reference monitor + permutation-equivariance metamorphic monitor + pinhole round trips",
+   text="knn, nbr_filter, voxel_filter (centroid and random), knn_filter (with and without radius), random_filter compared with O(n^2) numpy definitions on clouds of 1..300 points in 1..6 dims with extra channels, outliers first/middle/last, single point / single voxel, all k, norms 1/2/inf, radii placed inside distance gaps, voxel quotients away from integers, and on random permutations of the cloud; point2pixel / pixel2point / reprojerr / cart2homo / homo2cart round trips and model values incl. negative focal lengths, extrinsics and batched intrinsics.",
+   note="Trusted: geom_ref; index equality only on rows without near-ties; decisions exactly at a radius or voxel face are not judged.", ref="DESIGN.md 3 C18"),
 }
 NOT_BUILT = "check not built yet (in progress); no claim is made for this property in this commit"
 def main():
